@@ -199,6 +199,29 @@ int main(int argc, char **argv) {
             mark = vh_ledger_mark();
             cur = 0; variant = (int) vh_seg;
             curvariant = variant;
+            /* the constructor on regions of many sizes (one byte up to a few slots; size 0 means "attach"), each placed flush against the guard page */
+            int bad = -1; long firstbad = -1;
+            if ((vh_seg % 8) == 1 && !inj_at && !inj_from) {
+                bad = 0;
+                size_t hdr = sizeof(qhasharr_data_t), ssz = sizeof(qhasharr_slot_t);
+                vh_where = "ctorsz";
+                for (size_t s = 1; s <= hdr + 4 * ssz + 3 && s + 64 < mapsz; s += (s < 40 || (s % ssz) <= 2 || (s % ssz) >= ssz - 2) ? 1 : 7) {
+                    unsigned char *r = arena[1] + mapsz - s;
+                    memset(arena[1] + mapsz - s - 64, 0xC7, 64);
+                    memset(r, 0xEE, s);
+                    vh_watchdog(6);
+                    qhasharr_t *t = qhasharr(r, s);
+                    alarm(0);
+                    int okc = 1;
+                    for (int j = 0; j < 64; j++) if (r[-64 + j] != 0xC7) okc = 0;
+                    if (t) {
+                        qhasharr_data_t *d = (qhasharr_data_t *) r;
+                        if (s < hdr || d->maxslots < 1 || hdr + (size_t) d->maxslots * ssz > s) okc = 0;
+                        t->free(t);
+                    }
+                    if (!okc) { bad++; if (firstbad < 0) firstbad = (long) s; }
+                }
+            }
             mem = region_at(cur, variant);
             memset(arena[cur], 0xC7, mapsz);
             T = qhasharr(mem, msz);
@@ -207,6 +230,7 @@ int main(int argc, char **argv) {
             for (int k = 1; k <= NK; k++) vh_bprintf(&b, "%s%d", k > 1 ? "," : "", home[k]);
             vh_bprintf(&b, "],\"d1\":%d,\"d2\":%d}", D1, D2);
             vh_bflush(&b);
+            if (bad >= 0) vh_emit("{\"op\":\"ctorsz\",\"a\":0,\"vid\":0,\"len\":0,\"bad\":%d,\"first\":%ld}", bad, firstbad);
             continue;
         }
         int a = 0, vid = 0, lc = 0;
